@@ -554,10 +554,213 @@ func materialise(dir string, prog []sysc, oldBytes, newBytes []byte, pc, k int) 
 }
 
 type killAct struct {
-	Name string `json:"name"`
-	Pc   int    `json:"pc"`
-	Part string `json:"part"`
-	Op   string `json:"op"`
+	Name  string `json:"name"`
+	Pc    int    `json:"pc"`
+	Part  string `json:"part"`
+	Op    string `json:"op"`
+	Gen   int    `json:"gen"`
+	Found int    `json:"found"`
+}
+
+func histString(path []killAct) string {
+	var out []string
+	steps := 0
+	for _, a := range path {
+		switch a.Name {
+		case "step":
+			steps++
+		case "kill":
+			if a.Part == "none" {
+				out = append(out, fmt.Sprintf("gen%d: %d calls, killed before call %d", a.Gen, steps, a.Pc))
+			} else {
+				out = append(out, fmt.Sprintf("gen%d: %d calls, killed inside call %d (%s)", a.Gen, steps, a.Pc, a.Part))
+			}
+			steps = 0
+		case "restart":
+			if steps > 0 {
+				out = append(out, fmt.Sprintf("gen%d: shutdown completed", a.Gen))
+			}
+			out = append(out, "restart")
+			steps = 0
+		}
+	}
+	return strings.Join(out, ", ")
+}
+
+// writeLen is the concrete length of write call pc in a generation whose serialisation has total bytes
+// (the observed program wrote observed bytes in the same calls).
+func writeLen(prog []sysc, pc, total, observed int) int {
+	before := 0
+	last := true
+	for j := pc; j < len(prog); j++ {
+		if prog[j].Op == "write" {
+			last = false
+		}
+	}
+	for j := 0; j < pc-1; j++ {
+		if prog[j].Op == "write" {
+			before += prog[j].N * total / max(1, observed)
+		}
+	}
+	if last {
+		return total - before
+	}
+	return prog[pc-1].N * total / max(1, observed)
+}
+
+// mkBytes serialises a content with the real code.
+func mkBytes(c *vf.Ctx, base string, ct content) []byte {
+	f := filepath.Join(base, fmt.Sprintf("mk-%d.json", time.Now().UnixNano()))
+	defer os.Remove(f)
+	defer os.Remove(f + ".tmp")
+	s, err := storage.NewJSONFileStorage(f)
+	if err != nil {
+		c.Fatal("mkBytes: %v", err)
+	}
+	if err := apply(s, ct); err != nil {
+		c.Fatal("mkBytes: %v", err)
+	}
+	if err := s.Stop(); err != nil {
+		c.Fatal("mkBytes: %v", err)
+	}
+	b, err := os.ReadFile(f)
+	if err != nil {
+		c.Fatal("mkBytes: %v", err)
+	}
+	return b
+}
+
+type histResult struct {
+	bad  string // "" = fine
+	what string
+	err  error
+}
+
+// replayHistory executes a history of the model (steps, kills, restarts over several generations) on a real
+// directory; every restart and the final state are loaded by the real NewJSONFileStorage. k is the byte offset of
+// the final kill if it hits inside a write.
+func replayHistory(dir string, prog []sysc, vers map[int][]byte, observed int, path []killAct, k int, snaps map[int]string) (histResult, error) {
+	_ = os.RemoveAll(dir)
+	if err := os.MkdirAll(dir, 0o755); err != nil {
+		return histResult{}, err
+	}
+	fpath := func(n string) string {
+		if n == "state" {
+			return filepath.Join(dir, "state.json")
+		}
+		return filepath.Join(dir, strings.TrimPrefix(n, "tmp:"))
+	}
+	if vers[0] != nil {
+		if err := os.WriteFile(fpath("state"), vers[0], 0o644); err != nil {
+			return histResult{}, err
+		}
+	}
+	files := map[int]*os.File{}
+	closeAll := func() {
+		for fd, f := range files {
+			_ = f.Close()
+			delete(files, fd)
+		}
+	}
+	defer closeAll()
+	gen, written := 1, 0
+	loadedSnap := snaps[-1]
+	if vers[0] != nil {
+		loadedSnap = snaps[0]
+	}
+	killedThisGen := false
+	write := func(s sysc, n int) error {
+		data := vers[gen]
+		if written+n > len(data) {
+			return fmt.Errorf("program writes more than the serialisation holds")
+		}
+		_, err := files[s.Fd].Write(data[written : written+n])
+		written += n
+		return err
+	}
+	for idx, a := range path {
+		final := idx == len(path)-1
+		switch a.Name {
+		case "step":
+			s := prog[a.Pc-1]
+			switch s.Op {
+			case "open":
+				flags := os.O_WRONLY
+				if s.Trunc {
+					flags |= os.O_TRUNC
+				}
+				if s.Creat {
+					flags |= os.O_CREATE
+				}
+				f, err := os.OpenFile(fpath(s.Name), flags, 0o644)
+				if err != nil {
+					return histResult{}, err
+				}
+				files[s.Fd] = f
+			case "write":
+				if err := write(s, writeLen(prog, a.Pc, len(vers[gen]), observed)); err != nil {
+					return histResult{}, err
+				}
+			case "close":
+				if f := files[s.Fd]; f != nil {
+					_ = f.Close()
+					delete(files, s.Fd)
+				}
+			case "rename":
+				if err := os.Rename(fpath(s.Name), fpath(s.Name2)); err != nil {
+					return histResult{}, err
+				}
+			case "unlink":
+				if err := os.Remove(fpath(s.Name)); err != nil {
+					return histResult{}, err
+				}
+			}
+		case "kill":
+			killedThisGen = true
+			if a.Part != "none" {
+				s := prog[a.Pc-1]
+				n := writeLen(prog, a.Pc, len(vers[gen]), observed)
+				kk := map[string]int{"first": 1, "mid": n / 2, "allbutone": n - 1}[a.Part]
+				if final {
+					kk = k
+				}
+				if kk > 0 {
+					if err := write(s, kk); err != nil {
+						return histResult{}, err
+					}
+				}
+			}
+			closeAll()
+			if final {
+				snap, lerr := loadSnapshot(fpath("state"))
+				switch {
+				case lerr != nil:
+					return histResult{"refuses-to-start", "writer killed: the next start refuses the state file", lerr}, nil
+				case snap != loadedSnap && snap != snaps[gen]:
+					return histResult{"neither", "writer killed: the next start finds neither the previous nor the new state", nil}, nil
+				}
+			}
+		case "restart":
+			closeAll()
+			snap, lerr := loadSnapshot(fpath("state"))
+			switch {
+			case lerr != nil:
+				return histResult{"refuses-to-start", "a start refuses the state file", lerr}, nil
+			case !killedThisGen && snap != snaps[gen]:
+				return histResult{"lost-save", "a completed shutdown did not store its state", nil}, nil
+			case killedThisGen && snap != loadedSnap && snap != snaps[gen]:
+				return histResult{"neither", "after a kill the start finds neither the previous nor the new state", nil}, nil
+			}
+			loadedSnap = snap
+			gen++
+			written = 0
+			killedThisGen = false
+			if _, ok := vers[gen]; !ok && !final {
+				return histResult{}, fmt.Errorf("no bytes for generation %d", gen)
+			}
+		}
+	}
+	return histResult{}, nil
 }
 
 func main() {
@@ -686,73 +889,132 @@ func run(c *vf.Ctx) {
 		if err != nil {
 			c.Fatal("dump: %v", err)
 		}
-		// ---- R: every kill edge of the graph, concretely
-		type pred struct {
-			Load string `json:"load"`
+		// ---- R: every kill and every restart of the graph, concretely, over three generations of the file
+		// version 0 = the file found at the beginning, 1 = what the observed shutdown wrote, 2 = a shorter state,
+		// 3 = a longer one (both serialised by the real code)
+		shortBytes := mkBytes(c, base, content{})
+		longBytes := mkBytes(c, base, genContent(rng, p.newR+6, p.newM+6))
+		for len(longBytes) <= len(newBytes) {
+			longBytes = mkBytes(c, base, genContent(rng, p.newR+20, p.newM+20))
+		}
+		vers := map[int][]byte{0: oldBytes, 1: newBytes, 2: shortBytes, 3: longBytes}
+		snaps := map[int]string{-1: "", 0: snapOld, 1: snapNew}
+		snaps[-1], _ = loadSnapshot(filepath.Join(base, "does-not-exist.json"))
+		for v := 2; v <= 3; v++ {
+			f := filepath.Join(base, "ver-copy.json")
+			_ = os.WriteFile(f, vers[v], 0o644)
+			sn, err := loadSnapshot(f)
+			if err != nil {
+				c.Fatal("version %d does not load: %v", v, err)
+			}
+			snaps[v] = sn
+		}
+		dump.Inits = []string{dump.Edges[0].From}
+		g := vf.BuildGraph(dump)
+		parent := map[string]int{}
+		seen := map[string]bool{dump.Inits[0]: true}
+		queue := []string{dump.Inits[0]}
+		for len(queue) > 0 {
+			st := queue[0]
+			queue = queue[1:]
+			for _, ei := range g.Out[st] {
+				t := g.Edges[ei].To
+				if !seen[t] {
+					seen[t] = true
+					parent[t] = ei
+					queue = append(queue, t)
+				}
+			}
+		}
+		pathTo := func(state string) []killAct {
+			var rev []killAct
+			for {
+				ei, ok := parent[state]
+				if !ok {
+					break
+				}
+				var a killAct
+				_ = json.Unmarshal(g.Edges[ei].Act, &a)
+				rev = append(rev, a)
+				state = g.Edges[ei].From
+			}
+			for l, r := 0, len(rev)-1; l < r; l, r = l+1, r-1 {
+				rev[l], rev[r] = rev[r], rev[l]
+			}
+			return rev
 		}
 		nKill, nBad := 0, 0
 		scratch := filepath.Join(base, "kill")
-		for _, e := range dump.Edges {
+		report := func(kind, what string, path []killAct, k int, lerr error) {
+			nBad++
+			last := path[len(path)-1]
+			call := prog[min(max(last.Pc, 1), len(prog))-1]
+			where := "between"
+			if last.Name == "kill" && last.Part != "none" {
+				where = "inside"
+			}
+			if last.Name == "restart" {
+				where = "restart"
+			}
+			key := vf.Key("kill", kind, call.Op, where)
+			if last.Gen > 1 {
+				key = vf.Key("kill", kind, call.Op, where, "later-generation")
+			}
+			c.Violation(key, fmt.Sprintf("%s (byte offset %d; generation %d; history: %s): %v (program: %s)", what, k, last.Gen, histString(path), lerr, strings.Join(progDesc, "; ")),
+				map[string]any{"pair": p, "program": progDesc, "history": histString(path), "byte_offset": k, "found": kind, "version_bytes": []int{len(oldBytes), len(newBytes), len(shortBytes), len(longBytes)}}, nil)
+		}
+		for ei, e := range g.Edges {
 			var a killAct
-			if err := json.Unmarshal(e.Act, &a); err != nil || a.Name != "kill" {
+			if err := json.Unmarshal(e.Act, &a); err != nil || (a.Name != "kill" && a.Name != "restart") {
 				continue
 			}
-			var offsets []int
-			switch a.Part {
-			case "none":
-				offsets = []int{0}
-			case "first":
-				offsets = []int{1}
-			case "allbutone":
-				offsets = []int{prog[a.Pc-1].N - 1}
-			case "mid":
-				n := prog[a.Pc-1].N
-				if c.Thorough() || n <= 200 {
-					for k := 2; k <= n-2; k++ {
-						offsets = append(offsets, k)
+			if parent[e.To] != ei && a.Name == "restart" {
+				// a restart is checked once per source state; kills always
+				if _, ok := parent[e.From]; !ok && e.From != dump.Inits[0] {
+					continue
+				}
+			}
+			path := append(pathTo(e.From), a)
+			offsets := []int{0}
+			if a.Name == "kill" && a.Part != "none" {
+				n := writeLen(prog, a.Pc, len(vers[a.Gen]), len(newBytes))
+				switch a.Part {
+				case "first":
+					offsets = []int{1}
+				case "allbutone":
+					offsets = []int{n - 1}
+				case "mid":
+					offsets = nil
+					limit := 96
+					if len(oldBytes) > 200000 {
+						limit = 10
 					}
-				} else {
-					offsets = append(offsets, 2, n/2, n-2)
-					for j := 0; j < 96; j++ {
-						offsets = append(offsets, 2+rng.Intn(n-3))
+					if (c.Thorough() && len(oldBytes) <= 200000) || n <= 200 {
+						for k := 2; k <= n-2; k++ {
+							offsets = append(offsets, k)
+						}
+					} else {
+						offsets = append(offsets, 2, n/2, n-2)
+						for j := 0; j < limit; j++ {
+							offsets = append(offsets, 2+rng.Intn(max(1, n-3)))
+						}
+					}
+					if n < 4 {
+						offsets = []int{n / 2}
 					}
 				}
 			}
 			for _, k := range offsets {
-				if err := materialise(scratch, prog, oldBytes, newBytes, a.Pc, k); err != nil {
-					c.Fatal("materialise pc=%d k=%d: %v", a.Pc, k, err)
+				res, err := replayHistory(scratch, prog, vers, len(newBytes), path, k, snaps)
+				if err != nil {
+					c.Fatal("replay %s: %v", histString(path), err)
 				}
-				snap, lerr := loadSnapshot(filepath.Join(scratch, "state.json"))
 				c.Eval(1)
 				nKill++
-				c.Distinct(fmt.Sprintf("%d/%d/%s/%d", pi, a.Pc, a.Part, k))
-				found := "neither"
-				switch {
-				case lerr != nil:
-					found = "refuses-to-start"
-				case snap == snapNew:
-					found = "new"
-				case snap == snapOld:
-					found = "old"
-				}
-				if found != "new" && found != "old" {
-					nBad++
-					call := prog[min(a.Pc, len(prog))-1]
-					where := fmt.Sprintf("before-call-%d-%s", a.Pc, call.Op)
-					if a.Part != "none" {
-						where = fmt.Sprintf("inside-%s-call-%d", call.Op, a.Pc)
-					}
-					key := vf.Key("kill", found, call.Op, map[bool]string{true: "between", false: "inside"}[a.Part == "none"])
-					pc, kk := a.Pc, k
-					c.Violation(key, fmt.Sprintf("writer killed %s (byte offset %d of %d): next start %s: %v (program: %s)", where, k, call.N, found, lerr, strings.Join(progDesc, "; ")),
-						map[string]any{"pair": p, "program": progDesc, "kill_pc": a.Pc, "byte_offset": k, "found": found, "old_bytes": len(oldBytes), "new_bytes": len(newBytes)},
-						func() bool {
-							if err := materialise(scratch, prog, oldBytes, newBytes, pc, kk); err != nil {
-								return false
-							}
-							s2, e2 := loadSnapshot(filepath.Join(scratch, "state.json"))
-							return e2 != nil || (s2 != snapNew && s2 != snapOld)
-						})
+				c.Distinct(fmt.Sprintf("%d/%s/%d", pi, histString(path), k))
+				if res.bad != "" {
+					report(res.bad, res.what, path, k, res.err)
+					break
 				}
 			}
 		}
@@ -761,13 +1023,14 @@ func run(c *vf.Ctx) {
 		}
 		if (modelViolated != "") != (nBad > 0) {
 			// The model and the real loader disagree on the observed program: drift, not a verdict.
-			if modelViolated != "" {
-				c.Broken("TLC reports %s on the observed program, but every materialised kill state loads as old or new (model drift)", modelViolated)
+			if modelViolated != "" && len(newBytes) < 8 {
+				c.Logf("note: TLC reports %s for a %d-byte state; no shorter serialisation exists to make the history concrete", modelViolated, len(newBytes))
+			} else if modelViolated != "" {
+				c.Broken("TLC reports %s on the observed program, but every materialised history loads correctly (model drift)", modelViolated)
 			} else {
-				c.Logf("note: real loader rejects kill states the model accepts (reported above as violations)")
+				c.Logf("note: the real loader rejects states the model accepts (reported above as violations)")
 			}
 		}
-		// an undisturbed run must end with the new state (SaveCompletes): checked above via snapNew load.
 
 		// ---- real kills: strace kills the helper at each call of the program
 		for ci, s := range prog {
